@@ -4,8 +4,9 @@ import json, glob, os
 rows = []
 for d in sorted(glob.glob(os.path.join(os.path.dirname(os.path.dirname(os.path.abspath(__file__))), "seeded", "*", "meta.json"))):
     m = json.load(open(d)); sid = os.path.basename(os.path.dirname(d))
+    other = [c for c in m["caught_by"] if c != m["property"]]
     if m["caught_by"] and not m.get("missed_by_first_version"):
-        verdict = "caught"
+        verdict = "caught" if m["property"] in m["caught_by"] else "caught by " + " / ".join(other) + " (the property's own check passes)"
     elif m["caught_by"]:
         verdict = "missed at first, caught after strengthening: " + m.get("after_strengthening", "")
     else:
@@ -13,5 +14,5 @@ for d in sorted(glob.glob(os.path.join(os.path.dirname(os.path.dirname(os.path.a
     rows.append("| %s | %s | %s |" % (sid, m["needs_to_manifest"].replace("|", "/"), verdict.replace("|", "/")))
 print("| seeded change | what it needs in order to manifest | result of `bin/check <id> --repo <tree with the change>` |\n|---|---|---|")
 print("\n".join(rows))
-n = len(rows); c1 = sum(1 for r in rows if r.endswith("| caught |")); miss = sum(1 for r in rows if "**missed**" in r)
+n = len(rows); c1 = sum(1 for r in rows if r.endswith("| caught |") or "| caught by C" in r); miss = sum(1 for r in rows if "**missed**" in r)
 print("\n%d seeded changes: %d caught by the first version of the check, %d caught after strengthening, %d still missed." % (n, c1, n - c1 - miss, miss))
